@@ -176,7 +176,7 @@ static void run_seq(const char* mode)
 {
     bool c10 = !strcmp(mode, "C10"), c01 = !strcmp(mode, "C01"), c08 = !strcmp(mode, "C08"), c09 = !strcmp(mode, "C09");
     vh::Rng g(E.seed * 2750159 + 1000 + (c10 ? 10 : c01 ? 1 : c08 ? 8 : 9));
-    int ncases = E.thorough ? 60 : (c08 ? 24 : 14);
+    int ncases = E.thorough ? 150 : 45;      // one process, small systems: cheap
     for (int it = 0; it < ncases; it++)
     {
         Problem p = gen_problem(g, it, c10);
